@@ -32,7 +32,13 @@ def harness_modules():
 def list_obligations():
     obls = []
     for stem, (src, child, path) in harness_modules().items():
+        needs = []
+        for line in open(path):
+            m = re.match(r"\s*//\s*@needs\s+(.*)", line)
+            if m:
+                needs += [x.strip() for x in m.group(1).split(",") if x.strip()]
         for o in C.parse_annotations(path, "kani"):
+            o["needs"] = needs
             o["backend"] = "kani"
             o["module"] = stem
             o["id"] = "kani:%s::%s" % (stem, o["name"])
@@ -105,7 +111,7 @@ def prepare(scratch, feat, modules, log):
         orig = os.path.join(C.REPO, "src", mod + ".rs")
         info["sources"]["src/%s.rs" % mod] = C.sha256_file(orig)
         with open(src, "a") as f:
-            f.write('\n#[cfg(kani)] #[path = "%s"] mod %s;\n' % (os.path.join(kdir, stem + ".rs"), child))
+            f.write('\n#[cfg(kani)] #[path = "%s"] pub(crate) mod %s;\n' % (os.path.join(kdir, stem + ".rs"), child))
     shutil.copy(os.path.join(C.REPO, "Cargo.lock"), os.path.join(repo, "Cargo.lock"))
     return repo, kdir, info
 
@@ -181,8 +187,9 @@ def run_group(repo, feat, obls, jobs, timeout_s, log, mem_gb=None):
     return res, {"cmd": shell, "wall": wall, "stubs": stubs, "rc": rc}
 
 
-def classify(raw):
+def classify(raw, obl=None):
     """-> ('accepted'|'violation'|'undecided', reason)"""
+    nocover = obl is not None and "nocover" in obl.get("flags", [])
     st = raw.get("status")
     if st == "NoResult":
         return "undecided", raw.get("why", "no result")
@@ -190,7 +197,7 @@ def classify(raw):
     if st == "Success":
         if bad_cover:
             return "undecided", "vacuity guard: cover not satisfied: %s" % "; ".join(bad_cover)
-        if not raw["covers"]:
+        if not raw["covers"] and not nocover:
             return "undecided", "vacuity guard: harness has no kani::cover!"
         if raw["n_checks"] == 0:
             return "undecided", "vacuity guard: zero checks generated"
@@ -205,42 +212,63 @@ def classify(raw):
     return "undecided", "status=%s without failed checks (timeout or solver error)" % st
 
 
-def playback(repo, kdir, feat, obl, log, timeout_s=900):
-    """Re-run a failed harness with concrete playback and execute the generated test natively.
-    Returns dict(test_src, native_output, native_failed) or None."""
+def playback_batch(repo, kdir, feat, obls, log, jobs=8, timeout_s=900, max_native=3):
+    """Re-run failed harnesses (one invocation, in parallel) with concrete playback and execute the generated
+    tests natively against the real crate.  Returns {obligation id: dict(tests, test_src, native_output, native_failed)}."""
     env = dict(os.environ, CARGO_NET_OFFLINE="true", CARGO_TERM_COLOR="never")
-    src = os.path.join(kdir, obl["module"] + ".rs")
-    before = open(src).read()
+    out = {}
+    if not obls:
+        return out
+    files = sorted(set(os.path.join(kdir, o["module"] + ".rs") for o in obls))
+    before = {f: open(f).read() for f in files}
     cmd = base_cmd(feat) + ["-Z", "concrete-playback", "--concrete-playback=inplace", "--output-format", "terse",
-                            "--exact", "--harness", obl["harness"], "--harness-timeout", "%ds" % timeout_s]
+                            "--exact", "--harness-timeout", "%ds" % timeout_s, "-j", str(max(1, min(jobs, len(obls))))]
+    for o in obls:
+        cmd += ["--harness", o["harness"]]
     try:
         p = subprocess.run(cmd, cwd=repo, env=env, stdout=subprocess.PIPE, stderr=subprocess.STDOUT, text=True,
-                           timeout=timeout_s + 600)
+                           timeout=timeout_s * 2 + 600)
+        log.write("\n$ %s\n%s\n" % (" ".join(cmd), p.stdout[-30000:]))
     except subprocess.TimeoutExpired:
-        return None
-    log.write("\n$ %s\n%s\n" % (" ".join(cmd), p.stdout[-20000:]))
-    after = open(src).read()
-    tests = re.findall(r"fn (kani_concrete_playback_\w+)", after)
-    tests = [t for t in tests if t not in before]
-    if not tests:
-        return None
+        log.write("\n$ %s\n[timeout]\n" % " ".join(cmd))
+        return out
     # native build: examples/tests need chrono and are not part of the proof; drop them from the scratch copy
     for d in ("examples", "tests"):
         shutil.rmtree(os.path.join(repo, d), ignore_errors=True)
-    new_src = after[len(before):] if after.startswith(before) else "\n".join(
-        l for l in after.split("\n") if l not in before.split("\n"))
-    outs = []
-    native_failed = False
-    for t in tests[:3]:
-        cmd2 = ["cargo", "kani", "playback", "-Z", "concrete-playback", "--no-default-features", "--features",
-                C.FEATURES[feat] + ",chrono", "--", t]
-        try:
-            q = subprocess.run(cmd2, cwd=repo, env=env, stdout=subprocess.PIPE, stderr=subprocess.STDOUT, text=True,
-                               timeout=1200)
-            outs.append("$ %s\n%s" % (" ".join(cmd2), q.stdout[-6000:]))
-            if q.returncode != 0 and ("panicked" in q.stdout or "FAILED" in q.stdout):
+    for o in obls:
+        f = os.path.join(kdir, o["module"] + ".rs")
+        after = open(f).read()
+        added = after[len(before[f]):] if after.startswith(before[f]) else after
+        # tests generated for this harness
+        blocks = re.split(r"(?=/// Test generated for harness)", added)
+        mine = [b for b in blocks if ("`%s`" % o["harness"]) in b]
+        tests = []
+        for b in mine:
+            m = re.search(r"fn (kani_concrete_playback_\w+)", b)
+            if m:
+                tests.append((m.group(1), b))
+        if not tests:
+            continue
+        # prefer tests generated for failed assertions/overflows over those for cover properties
+        tests.sort(key=lambda t: ("Check for `cover`" in t[1]))
+        outs, native_failed = [], False
+        for name, _ in tests[:max_native]:
+            cmd2 = ["cargo", "kani", "playback", "-Z", "concrete-playback", "--no-default-features", "--features",
+                    C.FEATURES[feat] + ",chrono", "--", name]
+            try:
+                q = subprocess.run(cmd2, cwd=repo, env=env, stdout=subprocess.PIPE, stderr=subprocess.STDOUT, text=True,
+                                   timeout=1200)
+                tail = q.stdout[-5000:]
+                outs.append("$ %s\n%s" % (" ".join(cmd2), tail))
+                if q.returncode != 0 and ("panicked" in q.stdout or "FAILED" in q.stdout):
+                    native_failed = True
+            except subprocess.TimeoutExpired:
+                outs.append("$ %s\n[timeout: native replay did not terminate in 1200 s]" % " ".join(cmd2))
                 native_failed = True
-        except subprocess.TimeoutExpired:
-            outs.append("$ %s\n[timeout: native replay did not terminate in 1200 s]" % " ".join(cmd2))
-            native_failed = True
-    return {"tests": tests, "test_src": new_src[-8000:], "native_output": "\n".join(outs), "native_failed": native_failed}
+            if native_failed:
+                break
+        out[o["id"]] = {"tests": [t[0] for t in tests], "test_src": "\n".join(t[1] for t in tests[:max_native])[-12000:],
+                        "native_output": "\n".join(outs), "native_failed": native_failed}
+    return out
+
+
